@@ -115,7 +115,7 @@ func syJudge(prop string, c *syCase) string {
 type syFullCase struct {
 	Deleting       bool     `json:"set_deleting"`
 	Paused         bool     `json:"set_paused"`
-	Pods           []string `json:"pods"` // owned | owned-nomatch | orphan | orphan-terminating | orphan-nomatch | foreign
+	Pods           []string `json:"pods"` // owned | owned-nomatch | orphan | orphan-terminating | orphan-nomatch | foreign | orphan-othername
 	OrphanRevision bool     `json:"orphan_revision"`
 	Failure        string   `json:"failure,omitempty"`
 	Writes         []string `json:"writes,omitempty"`
@@ -154,6 +154,10 @@ func syFullJudge(prop string, c *syFullCase) string {
 			p.Labels = map[string]string{"foo": "not-bar"}
 		case "foreign":
 			p.OwnerReferences = []metav1.OwnerReference{{APIVersion: "apps/v1", Kind: "ReplicaSet", Name: "rs", UID: "other-uid", Controller: &tr}}
+		case "orphan-othername":
+			// labels match, but the name is that of a pod of the longer-named set "<set>-extra"
+			p.OwnerReferences = nil
+			p.Name = fmt.Sprintf("%s-extra-%d", set.Name, i)
 		}
 		pods = append(pods, p)
 		objs = append(objs, p)
@@ -215,6 +219,8 @@ func syFullJudge(prop string, c *syFullCase) string {
 			switch kind {
 			case "foreign":
 				return "a pod controlled by another owner was written: " + x.verb + " " + x.name
+			case "orphan-othername":
+				return "an orphan whose name is not <set>-<ordinal> was written (adopted?): " + x.verb + " " + x.name
 			case "orphan-terminating", "orphan-nomatch":
 				return "an orphan that is terminating or does not match was written (adopted?): " + x.verb + " " + x.name
 			case "owned-nomatch":
@@ -265,7 +271,7 @@ func TestReplaySync(t *testing.T) {
 		}
 	}
 	// full syncs over small pod populations
-	podKinds := []string{"owned", "owned-nomatch", "orphan", "orphan-terminating", "orphan-nomatch", "foreign"}
+	podKinds := []string{"owned", "owned-nomatch", "orphan", "orphan-terminating", "orphan-nomatch", "foreign", "orphan-othername"}
 	full := 0
 	for _, deleting := range []bool{false, true} {
 		for _, paused := range []bool{false, true} {
@@ -296,6 +302,6 @@ func TestReplaySync(t *testing.T) {
 		}
 	}
 	if found == 0 {
-		fmt.Printf("NOT-REPRODUCED bounded search: %d revision populations x deleting flag on adoptOrphanRevisions; %d full syncs (deleting x paused x orphan revision x 6x6 pod kinds)\n", len(pops), full)
+		fmt.Printf("NOT-REPRODUCED bounded search: %d revision populations x deleting flag on adoptOrphanRevisions; %d full syncs (deleting x paused x orphan revision x 7x7 pod kinds)\n", len(pops), full)
 	}
 }
